@@ -18,7 +18,7 @@ Definition minf_bits : Z := 18442240474082181120.
    Floats: the parse oracle returns the float for the printed text (the formatter contract). *)
 Fixpoint jl (v : value) : Prop :=
   match v with
-  | VInt _ | VUint _ | VBool _ | VNil | VStr _ => True
+  | VInt _ | VUint _ | VBool _ | VNil | VStr _ | VBStr _ => True
   | VFloat b sci c =>
       match c with
       | FNaN => True
@@ -134,6 +134,7 @@ Proof.
             end) kvs)).
     cbn [eval_json_like sym]. change (list_eqb str_hash str_hash) with true. cbv iota.
     rewrite (H []); [reflexivity|]. apply Forall_forall. intros; constructor.
+  - intros; reflexivity.
 Qed.
 
 (* eval_read_print_jsonlike: evaluating what the reader returns for the printed text gives the value back *)
